@@ -177,6 +177,16 @@ def dedup : List Str → List Str
 def whitelist {V : Type} (wl : List Str) (js : Str → Option V) : List (Str × V) :=
   (dedup wl).filterMap fun k => (js k).map fun v => (k, v)
 
+/-- what a non-negative JSON integer becomes on its way through `json.Unmarshal` into `interface{}` (float64,
+round to nearest even on 53 bits) and back through `int64(f)` / `json.Marshal` in `filterMessage` -/
+def f64round (n : Nat) : Nat :=
+  if n < 2 ^ 53 then n else
+  let sh := (Nat.log2 n + 1) - 53
+  let q := n >>> sh
+  let rem := n % 2 ^ sh
+  let half := 2 ^ (sh - 1)
+  (if rem > half ∨ (rem = half ∧ q % 2 = 1) then q + 1 else q) <<< sh
+
 /-! ### hostpool marking (who calls `Mark`, with what) -/
 
 /-- nsq_to_http, `ModeHostPool`: `Get`, `Publish`, `Mark(err)` — one mark per message, carrying the outcome -/
@@ -197,7 +207,7 @@ open Nsq.Line
 
 def kvLine (m : List (Str × Str)) : String :=
   if m = [] then "-" else
-  ",".intercalate (m.map fun kv => hex kv.1 ++ "=" ++ hex kv.2)
+  ",".intercalate ((m.map fun kv => hex kv.1 ++ "=" ++ hex kv.2).mergeSort (fun a b => decide (a ≤ b)))
 
 def unhexAll (ws : List String) : Option (List Str) :=
   ws.foldr (fun w acc => match unhex w, acc with | some b, some r => some (b :: r) | _, _ => none) (some [])
@@ -260,6 +270,10 @@ def driverLine (ws : List String) : String :=
       let keys := (out.map fun kv => hex kv.1).mergeSort (fun a b => decide (a ≤ b))
       if keys = [] then "keys=-" else "keys=" ++ ",".intercalate keys
     | _, _ => "bad-op"
+  | ["f64", n] =>
+    match n.toNat? with
+    | some n => toString (f64round n)
+    | none => "bad-op"
   | ["topic", dest, consumed] =>
     match unhex dest, unhex consumed with
     | some dest, some consumed => hex (publishTopic dest consumed)
